@@ -95,20 +95,26 @@ def build_cases(ctx):
     ctx.cov["command_space"] = len(singles)
     # quick: every unworkable command, and one member of every (op, via, parameter, degenerate class) stratum
     mix["single_command"] = add(singles, "single", 1 if q else None, keep=lambda h: h.get("u"))
+    # a typical table-building command, then every modify / delete / view command (exhaustive); the ones that
+    # address the route just built are always part of the quick tier
+    mods = gen(ctx, 1, 0, "typical", "mods")
+    mix["typical_then_modify"] = add(mods, "mods", 1 if q else None, ctx.pick(150, None),
+                                     keep=lambda h: h["cmds"][0]["op"] in ("addRoute", "addAgg") and h["cmds"][1]["val"] == "typical"
+                                     and h["cmds"][1]["n"] == 0 and h["cmds"][1]["key"] in ("k1", "-"))
     if q:   # random typical prefixes, every command after each (simulation prints all successors of the walk)
         pairs = gen(ctx, 1, 0, "typical", "all", simulate=4, depth=2)
-        pairs = [h for h in pairs if h["cmds"][-1]["op"] in MODS or h["cmds"][-1]["opt"] == "none"]
+        pairs = [h for h in pairs if h["cmds"][-1]["opt"] == "none"]
     else:
         pairs = gen(ctx, 1, 0, "typical", "all")
-    mix["typical_then_command"] = add(pairs, "pair", 1 if q else 12, ctx.pick(300, 9000))
+    mix["typical_then_command"] = add(pairs, "pair", 1 if q else 12, ctx.pick(150, 5000))
     # a consistentHashing route shrunk to one destination, then every delete (incl. the one that would empty it)
     mix["hashing_route_shrunk_then_delete"] = add(gen(ctx, 1, 0, "chdel", "api"), "chdel")
     items1 = gen(ctx, 0, 1, "typical", "none")
     mix["typical_then_item"] = add(items1, "item1", 2 if q else None)
     if not q:
         items2 = gen(ctx, 0, 2, "empty", "none")
-        mix["two_items"] = add(items2, "item2", None, 1500)
-    sims = ((4, 3, 30, 150),) if q else ((2, 1, 400, 800), (3, 2, 500, 1000), (4, 3, 600, 1200))
+        mix["two_items"] = add(items2, "item2", None, 1000)
+    sims = ((4, 3, 30, 150),) if q else ((2, 1, 300, 500), (3, 2, 400, 600), (4, 3, 500, 800))
     for (mc, mi, num, lim) in sims:
         sim = gen(ctx, mc, mi, "empty", "all", simulate=num, depth=mc + mi + 1)
         mix["random_%dc%di" % (mc, mi)] = add(sim, "sim%d%d" % (mc, mi), None, lim)
@@ -204,7 +210,7 @@ def run(ctx):
         if len(acc) < len(applies) // 10 or len(online) < len(pumps) * 9 // 10:
             raise Machinery("vacuous run: %d/%d commands accepted, %d/%d histories with all sink destinations online"
                             % (len(acc), len(applies), len(online), len(pumps)))
-        need = {"addBlack", "addRewriter", "addAgg", "addRoute", "addGnet", "modRoute", "delRoute"}
+        need = {"addBlack", "addRewriter", "addAgg", "addRoute", "addGnet", "modDest", "modRoute", "delRoute", "delDest", "delAgg"}
         if not need.issubset(ops_acc):
             raise Machinery("commands never accepted: %s" % (need - set(ops_acc)))
         if set(protos) != {"plain", "pickle", "udp", "amqp"}:
@@ -248,7 +254,16 @@ def run(ctx):
                 what = "parameters that cannot work were accepted (%s) and the relay process died later: %s in %s" % (
                     ", ".join(why), d.get("panic"), where)
             else:
-                sig = "crash %s :: %s @ %s" % (cls if d.get("min") is not None else describe(steps[-1]) if steps else "items", pan, where)
+                st = d.get("step", -1)
+                if d.get("min") is not None:
+                    at = cls
+                elif d.get("what") == "cmd" and 0 <= st < len(steps):
+                    at = describe(steps[st])
+                elif d.get("what") == "item" and 0 <= st - len(steps) < len(case["items"]):
+                    at = "%(proto)s/%(cls)s" % case["items"][st - len(steps)]
+                else:
+                    at = "%s after [%s]" % (d.get("what"), cls)
+                sig = "crash %s :: %s @ %s" % (at, pan, where)
                 what = "the relay process died (%s in %s) during step %s of history [%s]" % (d.get("panic"), where, d.get("what"), cls)
             ctx.violation(sig, what, dict(history=case, minimal_steps=d.get("min"), minimal_text=d.get("min_text"),
                                           panic=d.get("panic"), frames=d.get("frames"), rc=d.get("rc"),
